@@ -2,15 +2,16 @@
 # tools/eval_seed.sh <ID> <PROPERTY> [out-dir]  — confirm a seeded change and run the property's check against it.
 #   <ID> names /tmp/seed-<ID>-out/{patch.diff,demo.py|demo.sh,notes.md}; results go to /verif/seeded/<ID>/
 ID="$1"; PROP="$2"; SRC="${3:-/tmp/seed-$ID-out}"
+[ -d "$SRC" ] || SRC="/verif/seeded/$ID"   # re-evaluation of a kept seed
 WT="/tmp/ev-$ID"; OUT="/verif/seeded/$ID"
 mkdir -p "$OUT"
 git -C /repo worktree remove --force "$WT" 2>/dev/null
 git -C /repo worktree add -q "$WT" HEAD || exit 2
 git -C "$WT" apply "$SRC/patch.diff" || { echo "patch does not apply"; git -C /repo worktree remove --force "$WT"; exit 2; }
-cp "$SRC/patch.diff" "$OUT/patch.diff"
+[ "$SRC" = "$OUT" ] || cp "$SRC/patch.diff" "$OUT/patch.diff"
 DEMO=demo.py; RUN="/venv/bin/python demo.py"
 [ -f "$SRC/demo.sh" ] && { DEMO=demo.sh; RUN="sh demo.sh"; }
-cp "$SRC/$DEMO" "$OUT/$DEMO"; [ -f "$SRC/notes.md" ] && cp "$SRC/notes.md" "$OUT/notes.md"
+[ "$SRC" = "$OUT" ] || { cp "$SRC/$DEMO" "$OUT/$DEMO"; [ -f "$SRC/notes.md" ] && cp "$SRC/notes.md" "$OUT/notes.md"; }
 cd "$SRC"
 PYTHONPATH=/repo $RUN >"$OUT/demo_unchanged.log" 2>&1; D0=$?
 PYTHONPATH="$WT" $RUN >"$OUT/demo_changed.log" 2>&1; D1=$?
